@@ -34,7 +34,7 @@ Definition chars3 (raw : text) : option text :=
   | UOk s => Some s
   | USyntax => Some (removelast (tl raw))
   | UOutside => None
-  | UFuel => Some [0; 0; 0]
+  | UFuel => None            (* unreachable: proofs/QuoteProofs.v unquote_no_fuel *)
   end.
 
 Fixpoint strip_zeros (s : text) : text :=
